@@ -1,11 +1,12 @@
 """Rust language plug-in (harness/PROTOCOL.md section 5).
 
 * runtime: /verif/runtimes/rust/binary_codec (crate `binary_codec`), built ONCE together with `bytes` and
-  `byteorder` into rlibs under /verif/.work/rt/rust/<key>/ by `setup()` (cargo build --offline);
+  `byteorder` into rlibs under /verif/.work/rt/rust/<key>/ by `setup()` (cargo build --offline), plus the fixed
+  part of the driver (runtimes/rust/driver/prelude.rs, crate `verifdrv`) as an rlib next to them;
 * per program everything happens inside `scratch` with direct `rustc` calls against those rlibs
   (no cargo, no shared target directory, no lock):
     1. emitted files -> `libmsg.rlib`          (build.ok: emitted non-test code + runtime only, C07)
-    2. GENERATED driver -> `driver` binary     (runtimes/rust/driver/prelude.rs + generated part)
+    2. GENERATED driver.rs -> `driver` binary  (links libmsg.rlib + libverifdrv.rlib)
     3. `driver case.txt [--skip k]`            (one event per op; a dead process = one `crash` event)
   self-tests: `rustc --test lib.rs` + run the test binary.
 
@@ -19,6 +20,7 @@ import os
 import re
 import shutil
 import threading
+import time
 
 from common import RUNTIMES, WORK, Infra, run, sha, tree_hash, write, read
 from langs import Lang, parse_events, runtime_hash
@@ -294,6 +296,8 @@ class DriverGen:
         p = self.pkt(name)
         if p is None:
             return None
+        if prefer is None:      # the module (file) of the same normalised name, if there is one
+            prefer = next((m for m in self.mods if normname(m.replace("r#", "")) == normname(name)), None)
         return self.shape(("pkt", name), name, p["fields"], prefer)
 
     @staticmethod
@@ -439,7 +443,9 @@ class DriverGen:
             else:
                 arms.append("        %s => run_op::<%s>(op, &build_%d, &read_%d, &|x, b| x.encode(b), &|b| %s::decode(b)),"
                             % (rs_str(p["name"]), self.path(sh), sh["k"], sh["k"], self.path(sh)))
-        out = ["use binary_codec::BinaryCodec;", ""] + self.code
+        out = ["// GENERATED by harness/lang_rust.py for one program; the fixed part is runtimes/rust/driver/prelude.rs",
+               "#![allow(dead_code, unused_variables, unused_mut, unused_imports, unreachable_code, unreachable_patterns, non_snake_case)]",
+               "use binary_codec::BinaryCodec;", "use verifdrv::*;", "", "fn main() {", "    run_main(dispatch);", "}", ""] + self.code
         out += ["", "fn dispatch(op: &Op) -> String {", "    match op.pkt.as_str() {"] + arms
         out += ["        _ => missing(op, \"packet is not declared in the program\"),", "    }", "}", ""]
         return "\n".join(out)
@@ -528,7 +534,7 @@ class Rust(Lang):
             rt = json.load(open(meta))
         except (OSError, ValueError):
             return None
-        if all(os.path.exists(rt.get(k, "")) for k in ("bytes", "byteorder", "binary_codec")):
+        if all(os.path.exists(rt.get(k, "")) for k in ("bytes", "byteorder", "binary_codec", "verifdrv")):
             return rt
         return None
 
@@ -552,10 +558,26 @@ class Rust(Lang):
             if not hits:
                 raise Infra("rust runtime build produced no lib%s-*.rlib in %s" % (name, deps))
             rt[name] = hits[-1][1]
+        # the fixed part of the driver, as a library
+        cmd = ["rustc"] + RUSTC_FLAGS + ["-L", "dependency=" + deps]
+        for name in ("bytes", "byteorder", "binary_codec"):
+            cmd += ["--extern", "%s=%s" % (name, rt[name])]
+        r = run(cmd + ["--crate-type", "rlib", "--crate-name", "verifdrv", "--out-dir", root, PRELUDE], cwd=root, env=env, timeout=600)
+        rt["verifdrv"] = os.path.join(root, "libverifdrv.rlib")
+        if r.returncode != 0 or not os.path.exists(rt["verifdrv"]):
+            raise Infra("rust driver prelude does not build:\n" + r.stderr[-3000:])
         tmp = meta + ".tmp%d" % os.getpid()
         with open(tmp, "w") as f:
             json.dump(rt, f)
         os.replace(tmp, meta)
+        # keep at most 3 older runtime builds
+        parent = os.path.dirname(root)
+        try:
+            olds = sorted((os.path.getmtime(os.path.join(parent, x)), x) for x in os.listdir(parent) if x != os.path.basename(root))
+            for _, x in olds[:-3]:
+                shutil.rmtree(os.path.join(parent, x), ignore_errors=True)
+        except OSError:
+            pass
         return rt
 
     def _rustc(self, args, cwd):
@@ -579,6 +601,7 @@ class Rust(Lang):
 
     # --- session -------------------------------------------------------------------------------------
     def _session(self, outdir, case, scratch):
+        t0 = time.time()
         work = os.path.join(scratch, "rs_session")
         src = os.path.join(work, "src")
         files = self._copy_emitted(outdir, src)
@@ -588,19 +611,23 @@ class Rust(Lang):
         rlib = os.path.join(work, "libmsg.rlib")
         if r.returncode != 0 or not os.path.exists(rlib):
             return {"build": {"ok": False, "log": ("timeout\n" if r.timed_out else "") + r.stderr[-3000:]}, "events": [], "crash": None}
+        t1 = time.time()
         build = {"ok": True, "log": ""}
         gen = DriverGen(case["prog"], parse_lib(src))
-        write(os.path.join(work, "driver.rs"), read(PRELUDE) + gen.generate())
-        r = self._rustc(["--crate-type", "bin", "--crate-name", "driver", "--extern", "msg=" + rlib, "-o", os.path.join(work, "driver"), "driver.rs"], work)
+        write(os.path.join(work, "driver.rs"), gen.generate())
+        r = self._rustc(["--crate-type", "bin", "--crate-name", "driver", "--extern", "msg=" + rlib, "--extern", "verifdrv=" + self.setup()["verifdrv"], "-o", os.path.join(work, "driver"), "driver.rs"], work)
         if r.returncode != 0:
             # ours, not the emitter's: the declarations were not understood
             return {"build": build, "events": [], "crash": "driver does not build (plug-in problem): " + r.stderr[-1500:]}
+        t2 = time.time()
         cf = os.path.join(work, "case.txt")
         write(cf, case_text(case))
         ops = case["ops"]
         events, crash, skip = [], None, 0
+        env = dict(os.environ)
+        env["RUST_BACKTRACE"] = "0"
         while skip < len(ops):
-            r = run([os.path.join(work, "driver"), cf, "--skip", str(skip)], cwd=work, timeout=120)
+            r = run([os.path.join(work, "driver"), cf, "--skip", str(skip)], cwd=work, env=env, timeout=120)
             evs = parse_events(r.stdout)[:len(ops) - skip]
             events += evs
             done = skip + len(evs)
@@ -615,7 +642,9 @@ class Rust(Lang):
             events.append(e)
             crash = crash or why
             skip = done + 1
-        return {"build": build, "events": events, "crash": crash}
+        t3 = time.time()
+        return {"build": build, "events": events, "crash": crash,
+                "time": {"lib": round(t1 - t0, 3), "driver": round(t2 - t1, 3), "run": round(t3 - t2, 3)}}
 
     # --- emitted self-tests -----------------------------------------------------------------------------
     def _selftest(self, outdir, scratch):
@@ -627,7 +656,9 @@ class Rust(Lang):
         r = self._rustc(["--test", "--crate-name", "msg", "-o", os.path.join(work, "tests"), os.path.join("src", "lib.rs")], work)
         if r.returncode != 0:
             return {"build_ok": False, "ran": 0, "passed": 0, "failed": 0, "log": ("timeout\n" if r.timed_out else "") + r.stderr[-1500:]}
-        r = run([os.path.join(work, "tests"), "--test-threads=1"], cwd=work, timeout=300)
+        env = dict(os.environ)
+        env["RUST_BACKTRACE"] = "0"
+        r = run([os.path.join(work, "tests"), "--test-threads=1"], cwd=work, env=env, timeout=300)
         out = r.stdout
         res = re.findall(r"(?m)^test (\S+)(?: - should panic)? \.\.\. (ok|FAILED|ignored)", out)
         passed = sum(1 for _, s in res if s == "ok")
@@ -639,7 +670,8 @@ class Rust(Lang):
             failed += 1
         log = ""
         if failed or r.returncode != 0:
-            log = (out[-1000:] + "\n" + r.stderr[-500:]).strip()
+            k = out.find("\nfailures:")
+            log = ((out[k:k + 1200] if k >= 0 else out[-1000:]) + "\n" + r.stderr[-500:]).strip()
         return {"build_ok": True, "ran": passed + failed, "passed": passed, "failed": failed, "log": log[-1500:]}
 
 
